@@ -101,3 +101,16 @@ def padded_env_docs():
                 out.append('\\begin{%s%s%s}%s\\end{%s}' % (lp, n, rp, b, n))
                 out.append('\\begin{%s%s%s}%s\\end{%s%s%s}' % (lp, n, rp, b, lp, n, rp))
     return out
+
+
+def long_arg_runs():
+    """Commands and environments with long argument runs (LaTeX itself stops at nine; the parser does not)."""
+    out = []
+    for n in (8, 9, 10, 11, 14):
+        out.append('\\x' + '{a}' * n + 'z')
+        out.append('\\x' + '[b]' * n + 'z')
+        out.append('\\x' + '[b]' * 4 + '{a}' * (n - 4) + 'z')
+        out.append('\\begin{a}' + '{u}' * n + 'w\\end{a}')
+        out.append('\\begin{itemize}\\item \\y' + '{s}' * n + '\\end{itemize}')
+        out.append('$\\x' + '{a}' * n + '$')
+    return out
